@@ -2,7 +2,10 @@
 
 package z
 
-import "reflect"
+import (
+	"reflect"
+	"unsafe"
+)
 
 // White-box access to z.Tree for the C10 / C16 checks (added through go build -overlay; never part
 // of a normal build). Reads private state, copies it, and writes a previously copied state back
@@ -15,11 +18,74 @@ type VerifTreeMeta struct {
 	Stats    TreeStats // the private t.stats (only the "calculated" members are ever non-zero)
 	DataLen  int       // len(t.data): newNode branches on it (growth of the backing buffer)
 	BufLen   int       // len(t.buffer.buf): in-memory capacity / mapped file size
+	// Extra holds the raw bytes of every field of Tree this file does not know by name (a tree that
+	// gained private state), so that it takes part in the state key; empty on the known layout.
+	Extra string
+	// whole is a shallow copy of the Tree struct (buffer and data cleared): restore and clone copy
+	// it back, which carries unknown plain-data fields along.
+	whole Tree
 }
 
+var verifKnownTreeFields = map[string]bool{"buffer": true, "data": true, "nextPage": true, "freePage": true, "stats": true}
+
+type verifExtraField struct {
+	off, size uintptr
+}
+
+// verifExtraFields: offsets of the unknown fields, and whether all of them are plain data (no
+// pointers, maps, slices, strings, channels, funcs, interfaces anywhere inside), i.e. whether a
+// shallow struct copy is an exact copy of them.
+var verifExtraFields, verifExtraNames, verifExtraPlain = func() (fs []verifExtraField, names []string, plain bool) {
+	plain = true
+	var isPlain func(tp reflect.Type) bool
+	isPlain = func(tp reflect.Type) bool {
+		switch tp.Kind() {
+		case reflect.Bool, reflect.Int, reflect.Int8, reflect.Int16, reflect.Int32, reflect.Int64,
+			reflect.Uint, reflect.Uint8, reflect.Uint16, reflect.Uint32, reflect.Uint64, reflect.Uintptr,
+			reflect.Float32, reflect.Float64, reflect.Complex64, reflect.Complex128:
+			return true
+		case reflect.Array:
+			return isPlain(tp.Elem())
+		case reflect.Struct:
+			for i := 0; i < tp.NumField(); i++ {
+				if !isPlain(tp.Field(i).Type) {
+					return false
+				}
+			}
+			return true
+		}
+		return false
+	}
+	tp := reflect.TypeOf(Tree{})
+	for i := 0; i < tp.NumField(); i++ {
+		f := tp.Field(i)
+		if verifKnownTreeFields[f.Name] {
+			continue
+		}
+		names = append(names, f.Name)
+		fs = append(fs, verifExtraField{f.Offset, f.Type.Size()})
+		plain = plain && isPlain(f.Type)
+	}
+	return fs, names, plain
+}()
+
+// VerifTreeExtraFields names the fields of Tree beyond the known five and says whether they are all
+// plain data (then snapshots / restores / clones copy them exactly as opaque bytes).
+func VerifTreeExtraFields() (names []string, plain bool) { return verifExtraNames, verifExtraPlain }
+
 func VerifTreeMetaOf(t *Tree) VerifTreeMeta {
-	return VerifTreeMeta{NextPage: t.nextPage, FreePage: t.freePage, Stats: t.stats,
+	m := VerifTreeMeta{NextPage: t.nextPage, FreePage: t.freePage, Stats: t.stats,
 		DataLen: len(t.data), BufLen: len(t.buffer.buf)}
+	if len(verifExtraFields) > 0 {
+		m.whole = *t
+		m.whole.buffer, m.whole.data = nil, nil
+		var b []byte
+		for _, f := range verifExtraFields {
+			b = append(b, unsafe.Slice((*byte)(unsafe.Add(unsafe.Pointer(t), f.off)), f.size)...)
+		}
+		m.Extra = string(b)
+	}
+	return m
 }
 
 // VerifTreeFields lists the fields of Tree so the harness can notice that the struct gained
@@ -62,6 +128,11 @@ func VerifTreeRestore(t *Tree, m VerifTreeMeta, used []byte, zeroUpTo int) bool 
 	}
 	if zeroUpTo > lo {
 		Memclr(t.data[lo:zeroUpTo])
+	}
+	if len(verifExtraFields) > 0 {
+		b, d := t.buffer, t.data
+		*t = m.whole
+		t.buffer, t.data = b, d
 	}
 	t.nextPage, t.freePage, t.stats = m.NextPage, m.FreePage, m.Stats
 	return true
@@ -127,7 +198,11 @@ func VerifTreeBuildTight(m VerifTreeMeta, used []byte, slackPages int) *Tree {
 	const tag = "verif-tight"
 	sz := 8 + pageSize + len(used) + slackPages*pageSize
 	b := &Buffer{buf: Calloc(sz, tag), bufType: UseCalloc, curSz: sz, offset: uint64(sz), padding: 8, tag: tag}
-	t := &Tree{buffer: b, nextPage: m.NextPage, freePage: m.FreePage, stats: m.Stats}
+	t := &Tree{}
+	if len(verifExtraFields) > 0 {
+		*t = m.whole
+	}
+	t.buffer, t.nextPage, t.freePage, t.stats = b, m.NextPage, m.FreePage, m.Stats
 	t.data = b.Bytes()
 	copy(t.data[pageSize:], used)
 	return t
